@@ -57,6 +57,20 @@ def _is(ev, body):
     return ev.kind == "call" and (ev.fn.get("resolved") or ev.fn).get("def") == body.key
 
 
+def _digit_operand(t):
+    """the value narrowed to the digit byte: `x as u8`, or `u8::try_from(x).unwrap()` (the same byte whenever x < 256, and the
+    callers require x to be `value % 10`)"""
+    if t[0] == "cast":
+        return t[3]
+    if t[0] == "call" and str(t[1]).rsplit("::", 1)[-1] in ("unwrap", "expect"):
+        a = [y for y in t[2] if not (isinstance(y, tuple) and y and y[0] == "mem")]
+        if a and a[0][0] == "call" and str(a[0][1]).rsplit("::", 1)[-1] in ("try_from", "try_into"):
+            inner = [y for y in a[0][2] if not (isinstance(y, tuple) and y and y[0] == "mem")]
+            if inner:
+                return inner[0]
+    return t
+
+
 def _flatten_range(dst):
     """&x[a..][..n] and &x[a..][b..c] are the sub-ranges x[a..a+n], x[a+b..a+c] of x itself"""
     if not (isinstance(dst, tuple) and dst and dst[0] == "ref" and dst[1][0] == "range"):
@@ -98,7 +112,8 @@ def check(col, prog, tier, profile, fixture=None):
     if capt_.isdigit():
         cap = int(capt_)
     else:
-        cands = [k for k in crate.consts if k["name"] == capt_.split("::")[-1] and "Writer" in k["path"] and k.get("val") is not None]
+        named_ = [k for k in crate.consts if k["name"] == capt_.split("::")[-1] and k.get("val") is not None]
+        cands = [k for k in named_ if "Writer" in k["path"]] or (named_ if len({str(k.get("val")) for k in named_}) == 1 else [])   # (an associated constant of the Writer, or the module's only constant of that name)
         if not cands:
             raise Anchor("cannot evaluate the Writer buffer capacity %s" % capt_)
         cap = int(cands[0]["val"])
@@ -454,6 +469,11 @@ def check(col, prog, tier, profile, fixture=None):
                 li = max(k for k, e in enumerate(evs) if e.kind == "loop")
                 if _slice_iter_exhausted(st, evs[:li]):
                     continue  # `if let Some(first) = it.next()` failed: a slice iterator is fused, the loop over it is empty
+                if _first_of_self_is_none(st, evs[:li], I):
+                    continue  # `if let Some(first) = self.first()` failed: the sequence is empty, so is any loop over (part of) it
+                # the first element taken by `self.first()`: the loop must then walk the sequence WITHOUT it
+                if _first_by_query(evs[:li], wr) and not _loop_skips_first(I, st, evs, li):
+                    pre_set.add(("W", "and-again"))
                 pre_set.add(tuple(emis(evs[:li])))
                 it = emis(evs[li:])
                 first = None
@@ -476,6 +496,24 @@ def check(col, prog, tier, profile, fixture=None):
                     queries = ("is_empty", "len", "deref", "as_slice", "as_ref", "iter", "into_iter", "first", "last", "split_first", "split_last", "next", "get", "borrow")
                     hands_on = any(e.kind == "call" and e.extra.get("name") not in queries and not _is(e, wc) and not _is(e, wr) for e in evs)
                     post_ok = post_ok and not emis(evs) and (hands_on or _known_empty_seq(st))
+            # `&self[1..]` needs an element to be there: on a path that has not seen one the slice expression itself panics
+            # (an empty vector prints nothing, it does not abort)
+            for st in I.all_end_states():
+                evs = st.event_list()
+                for e in evs:
+                    if not (e.kind == "call" and e.extra.get("name") in ("index", "index_mut") and len(e.args) > 1 and _self_seq(e.args[0], I)):
+                        continue
+                    r_ = e.args[1]
+                    if not (r_[0] == "agg" and isinstance(r_[1], tuple) and str(r_[1][1]).endswith(("ops::RangeFrom", "ops::Range", "ops::RangeInclusive")) and r_[2] and r_[2][0][0] == "int" and r_[2][0][1] >= 1):
+                        continue
+                    facts_ = e.state[0] if getattr(e, "state", None) else st.facts
+                    some_ = any(f[0] in ("eq", "ne") and isinstance(f[1], tuple) and f[1][0] == "discr" and isinstance(f[1][1], tuple) and f[1][1][0] == "call" and str(f[1][1][1]).rsplit("::", 1)[-1] in ("first", "last", "split_first", "split_last") and _self_seq(f[1][1], I) and ((f[0] == "eq" and f[2] == 1) or (f[0] == "ne" and f[2] == 0)) for f in facts_)
+                    nonempty_ = any(f[0] == "eq" and f[2] == 0 and isinstance(f[1], tuple) and f[1][0] == "call" and str(f[1][1]).rsplit("::", 1)[-1] == "is_empty" and _self_seq(f[1], I) for f in facts_)
+                    lens_ = [x.res for x in evs if x.kind == "call" and x.extra.get("name") == "len" and x.args and _self_seq(x.args[0], I)]
+                    long_ = any(zones.entails(facts_, "Ge", l_, mk_int(r_[2][0][1]), I.tys) for l_ in lens_)
+                    if not (some_ and r_[2][0][1] == 1 or nonempty_ and r_[2][0][1] == 1 or long_):
+                        post_ok = False
+                        col.violation("V8" + sfx, "%s|slice-of-empty" % fk(b), b.loc(e.bb), "the sequence writer slices self[%d..] on a path that has not seen an element: for an empty vector the slice expression panics instead of printing nothing" % r_[2][0][1])
             form_a = pre_set == {()} and its and all((f is True and it == ["W"]) or (f is False and it == ["S", "W"]) for f, it in its) and {f for f, _ in its} == {True, False}
             form_b = pre_set == {("W",)} and its and all(it == ["S", "W"] for _, it in its)
             if post_ok and (form_a or form_b):
@@ -617,7 +655,7 @@ def _digits_cell_form(crate, b, bufl, wb, wc):
             ok, why = False, "digit is %s" % tstr(dig)
             continue
         other = dig[2] if dig[3] == mk_int(48) else dig[3]
-        rem = other[3] if other[0] == "cast" else other
+        rem = _digit_operand(other)
         if not (rem[0] == "bin" and rem[1] == "Rem" and rem[3] == mk_int(10) and rem[2][0] == "phi" and rem[2][1] == uid):
             ok, why = False, "digit is %s" % tstr(dig)
             continue
@@ -774,6 +812,57 @@ def _single_byte_append(b, inl, BUF, END, cap):
     return None
 
 
+def _self_seq(t, I):
+    p = ("param", 1, I.names.get(1))
+    return any(x == p for x in [t] + list(subterms(t)))
+
+
+def _first_of_self_is_none(st, pre, I):
+    """before the loop `self.first()` (or split_first) was found None on this path"""
+    for e in pre:
+        if e.kind == "call" and e.extra.get("name") in ("first", "split_first") and e.args and _self_seq(e.args[0], I):
+            d = ("discr", e.res)
+            if any((f[0] == "eq" and f[1] == d and f[2] == 0) or (f[0] == "ne" and f[1] == d and f[2] == 1) for f in st.facts):
+                return True
+    return False
+
+
+def _first_by_query(pre, wr):
+    """the element written before the loop is `self.first()`'s / `self[0]`'s (not one drawn from the loop's own iterator)"""
+    for e in pre:
+        if _is(e, wr) and len(e.args) > 1:
+            a = e.args[1]
+            if any(x[0] == "call" and str(x[1]).rsplit("::", 1)[-1] == "first" for x in [a] + list(subterms(a))):
+                return True
+            if any(x[0] == "idx" and x[-1] == mk_int(0) for x in [a] + list(subterms(a))):
+                return True
+    return False
+
+
+def _loop_skips_first(I, st, evs, li):
+    """the loop draws from `<iter>.skip(1)` or from `seq[1..]`"""
+    nx = [e for e in evs[li:] if e.kind == "call" and e.extra.get("name") == "next" and e.args and e.args[0][0] == "ref" and e.args[0][1][0] == "local"]
+    if not nx:
+        return False
+    heads = [h for h, sts in I.backedge_states.items() if st in sts]
+    ents = I.loop_entry.get(heads[0], []) if heads else []
+    if not ents:
+        return False
+    for en in ents:
+        src = en.get(nx[-1].args[0][1][1])
+        if src is None:
+            return False
+        ok = False
+        for x in [src] + list(subterms(src)):
+            if x[0] == "call" and str(x[1]).rsplit("::", 1)[-1] == "skip" and mk_int(1) in x[2]:
+                ok = True
+            if x[0] == "range" and isinstance(x[2], tuple) and x[2][0] == "agg" and str(x[2][1][1] if isinstance(x[2][1], tuple) else "").endswith("ops::RangeFrom") and x[2][2] == (mk_int(1),):
+                ok = True
+        if not ok:
+            return False
+    return True
+
+
 def _slice_iter_exhausted(st, pre):
     """before the loop, next() on a std::slice::Iter local returned None and the loop runs over that same
     iterator (moved through into_iter): slice iterators are fused, so no round of the loop is feasible"""
@@ -892,7 +981,7 @@ def _digits(col, crate, base10, wb, wc, wr, sfx):
                     rem = None
                     if okd:
                         other = dig[2] if dig[3] == mk_int(48) else dig[3]
-                        rem = other[3] if other[0] == "cast" else other
+                        rem = _digit_operand(other)
                         okd = rem[0] == "bin" and rem[1] == "Rem" and rem[3] == mk_int(10) and rem[2][0] == "phi"
                     ok = ok and okd
                     if okd:
